@@ -88,7 +88,7 @@ def run_case(case):
         def on_error(app, e):
             trace.append((sched.now, "error", type(e).__name__, str(e)))
 
-        app = websocket.WebSocketApp("ws://c16.test/", on_error=on_error, on_close=lambda a, c, r: trace.append((sched.now, "close", c, r)),
+        app = websocket.WebSocketApp(("wss" if case.get("secure") else "ws") + "://c16.test/", on_error=on_error, on_close=lambda a, c, r: trace.append((sched.now, "close", c, r)),
                                      on_open=lambda a: trace.append((sched.now, "open")))
         res["ret"] = app.run_forever(ping_interval=I, ping_timeout=T, ping_payload=payload)
         res["t_end"] = sched.now
@@ -161,8 +161,8 @@ def _cls(obs, case, npings):
                 near = True
     nt = npings >= 3 and (silent or near)
     obs.cls = (f"ratio:{'I<=2T' if T and I <= 2 * T else 'I>2T'}", f"silent:{int(silent)}", f"traffic:{min(len(tr), 4)}", f"near_ping_traffic:{int(near)}",
-               f"pings:{min(npings // 5 * 5, 30)}", f"late_pongs:{int(any(l is not None and T and l >= T for l in case.get('pong', [])))}")
-    obs.nt = repr((I, T, case.get("pong"), case.get("silent_from"), tr, case.get("choices"), sorted((case.get("preempt") or {}).items()), case.get("payload"))) if nt else None
+               f"pings:{min(npings // 5 * 5, 30)}", f"late_pongs:{int(any(l is not None and T and l >= T for l in case.get('pong', [])))}", f"tls:{int(bool(case.get('secure')))}")
+    obs.nt = repr((I, T, case.get("pong"), case.get("silent_from"), tr, case.get("choices"), sorted((case.get("preempt") or {}).items()), case.get("payload"), case.get("secure"))) if nt else None
     return obs
 
 
@@ -178,6 +178,8 @@ def grid_cases():
         for I in ratios(T):
             yield {"interval": I, "timeout": T}
             yield {"interval": I, "timeout": T, "payload": "keepalive", "traffic": [[2 * I + 0.5 * T, "data"], [3 * I - 0.2, "pong"], [5 * I + T + 0.5, "pong"], [7 * I, "ping"]]}
+            yield {"interval": I, "timeout": T, "secure": True, "traffic": [[2 * I + 0.5 * T, "data"], [3 * I - 0.2, "pong"], [5 * I + T + 0.5, "pong"]]}
+            yield {"interval": I, "timeout": T, "secure": True, "silent_from": 1, "traffic": [[3 * I + 0.3 * T, "data"], [3 * I + 0.9 * T, "data"]]}
             for n in (0, 1, 3):
                 yield {"interval": I, "timeout": T, "silent_from": n}
                 yield {"interval": I, "timeout": T, "silent_from": n, "traffic": [[(n + 2) * I + 0.3 * T, "data"], [(n + 2) * I + 0.9 * T, "data"], [(n + 2) * I + 1.4 * T, "ping"]]}
@@ -189,7 +191,7 @@ def grid_cases():
 def cases(draw):
     T = draw(st.sampled_from(TS))
     I = draw(st.sampled_from(ratios(T)))
-    c = {"interval": I, "timeout": T, "payload": draw(st.sampled_from(["", "", "hb", "é"]))}
+    c = {"interval": I, "timeout": T, "payload": draw(st.sampled_from(["", "", "hb", "é"])), "secure": draw(st.integers(0, 2)) == 0}
     mode = draw(st.sampled_from(["responsive", "responsive", "silent", "silent", "late"]))
     if mode == "silent":
         c["silent_from"] = draw(st.integers(0, 6))
